@@ -167,4 +167,70 @@ PROPS["C09"] = {
                                 "a locally requested close completes in bounded time while another writer is stalled: FALSE of gws (known finding KF-C09-stall-close; model witness closer_blocked_behind_stalled_writer)"],
 }
 
+# ---- relevance: does an implementation/model difference contradict THIS property's clauses? ---------------
+import re as _re
+
+
+def _read_parts(out):
+    parts = out.split("|")
+    return (parts + ["", "", ""])[:3] if not out.startswith("chunk-dependent") else ("", "", "")
+
+
+def _crashy(v):
+    return bool(_re.search(r"panic|PANIC|HANG|CRASH|TIMEOUT|lifecycle|NIL-ERROR|transport-left-open", v["impl"]))
+
+
+def _rel_c04(v):
+    return _crashy(v)
+
+
+def _rel_c13(v):
+    if v.get("suite") != "read":
+        return True
+    m = _re.match(r"read \S+ \S+ \S+ (-?\d+) ", v["case"])
+    limit = int(m.group(1)) if m else None
+    for mm in _re.finditer(r"msg:\d+:([0-9a-f-]+)", v["impl"]):
+        n = 0 if mm.group(1) == "-" else len(mm.group(1)) // 2
+        if limit is not None and n > limit:
+            return True
+    ir, mr = _read_parts(v["impl"])[2], _read_parts(v["model"])[2]
+    if (mr == "1009") != (ir == "1009"):
+        return True
+    if v["impl"].count("msg:") < v["model"].count("msg:"):
+        return True          # a message within the limit was not delivered
+    return _crashy(v)
+
+
+def _rel_c16(v):
+    if v.get("suite") != "read":
+        return True
+    return "1007" in v["impl"] or "1007" in v["model"] or v["impl"].count("msg:1:") != v["model"].count("msg:1:")
+
+
+def _rel_c06(v):
+    if v.get("suite") != "read":
+        return True
+    return "peer(" in v["impl"] or "peer(" in v["model"] or "frames(" in v["impl"]
+
+
+def _rel_c07(v):
+    if v.get("suite") == "read":
+        return bool(_re.search(r"lifecycle|NIL-ERROR|panic|HANG", v["impl"]))
+    if v.get("suite") == "conn":
+        f = lambda o: _re.search(r"cbs=(\S+)", o)
+        a, b = f(v["impl"]), f(v["model"])
+        return (a.group(1) if a else v["impl"]) != (b.group(1) if b else v["model"])
+    return True
+
+
+def _rel_c08(v):
+    if v.get("suite") == "conn":
+        f = lambda o: _re.search(r"wire=(\S+) rets=(\S+)", o)
+        a, b = f(v["impl"]), f(v["model"])
+        return (a.groups() if a else v["impl"]) != (b.groups() if b else v["model"])
+    return True
+
+
+RELEVANT = {"C04": _rel_c04, "C13": _rel_c13, "C16": _rel_c16, "C06": _rel_c06, "C07": _rel_c07, "C08": _rel_c08}
+
 EXTRA = {}
